@@ -14,12 +14,12 @@ namespace {
 
 template <class S> S ulp(S x) { x = std::fabs(x); return std::nextafter(x, std::numeric_limits<S>::infinity()) - x; }
 
-struct GridCfg { double res; int cells; bool interval; double lo, hi; };
+struct GridCfg { double res; int cells; bool interval; double lo, hi; bool sameWidth = false; };   // sameWidth: every axis has the width of axis 0 (equal cell counts) and a lower bound shifted by 3 per axis
 
 template <class S, size_t DIM> GridIndexMapping<S, DIM> make_grid(const GridCfg& g) {
   using P = Eigen::Matrix<S, DIM, 1>;
   if (g.interval) {
-    P lo, hi; for (size_t d = 0; d < DIM; ++d) { lo[d] = (S)(g.lo - 0.13 * d); hi[d] = (S)(g.hi + 0.29 * d); }
+    P lo, hi; for (size_t d = 0; d < DIM; ++d) { lo[d] = (S)(g.sameWidth ? g.lo + 3.0 * d : g.lo - 0.13 * d); hi[d] = (S)(g.sameWidth ? g.hi + 3.0 * d : g.hi + 0.29 * d); }
     return GridIndexMapping<S, DIM>(Interval<S, DIM>(lo, hi), (S)g.res);
   }
   S R = (S)(g.res * (g.cells - 1) / 2);
@@ -32,8 +32,12 @@ template <size_t DIM> std::string ix(const Eigen::Matrix<size_t, DIM, 1>& p) { s
 // centre of a cell from the definition of the grid, not from the grid's own table (symmetric form: cell (N-1)/2 is centred on 0); the interval
 // form keeps the table (its origin is floor(lower/res) res, checked by C13)
 template <class S, size_t DIM, class I> Eigen::Matrix<S, DIM, 1> cell_centre(GridIndexMapping<S, DIM>& g, const GridCfg& gc, const I& cell) {
-  if (gc.interval) return g.computeCellCenterPosition(cell);
   auto N = g.getNumberOfCellsAlongAxes(); Eigen::Matrix<S, DIM, 1> p;
+  if (gc.interval) {   // general interval form: the first cell is centred on floor(lower/res) res, per axis (the construction C13 checks)
+    S res = g.getCellResolution();
+    for (size_t d = 0; d < DIM; ++d) { S lo = (S)(gc.sameWidth ? gc.lo + 3.0 * d : gc.lo - 0.13 * d); p[d] = (S)((std::floor(lo / res) + (S)cell[d]) * res); }   // cells are CENTRED on the multiples of the resolution, the first one on floor(lower/res) res
+    return p;
+  }
   for (size_t d = 0; d < DIM; ++d) p[d] = (S)(((double)cell[d] - (double)(N[d] - 1) / 2) * (double)g.getCellResolution());
   return p;
 }
@@ -105,7 +109,7 @@ void lattice(vf::Ctx& c, const char* tname, const GridCfg& gc, size_t originBloc
   for (size_t d = 0; d < DIM; ++d) {
     const auto& cen = g.getCellCentersPositionAlong(d);
     S lo, hi;                                // the extent the grid was built from (points outside it are outside the quantifier)
-    if (gc.interval) { lo = (S)(gc.lo - 0.13 * d); hi = (S)(gc.hi + 0.29 * d); } else { hi = (S)(gc.res * (gc.cells - 1) / 2); lo = -hi; }
+    if (gc.interval) { lo = (S)(gc.sameWidth ? gc.lo + 3.0 * d : gc.lo - 0.13 * d); hi = (S)(gc.sameWidth ? gc.hi + 3.0 * d : gc.hi + 0.29 * d); } else { hi = (S)(gc.res * (gc.cells - 1) / 2); lo = -hi; }
     std::vector<size_t> cells = DIM == 2 ? std::vector<size_t>{0, 1, N[d] / 4, N[d] / 2, N[d] - 2, N[d] - 1} : std::vector<size_t>{0, N[d] / 2, N[d] - 1};
     std::vector<S> sub = DIM == 2 ? std::vector<S>{-0.5f, -0.25f, 0, 0.25f} : std::vector<S>{-0.5f, 0, 0.25f};
     for (size_t cidx : cells) for (S s : sub) { S x = cen[cidx] + s * res; if (x >= lo && x <= hi) ax[d].push_back(x); }
@@ -251,8 +255,8 @@ void near_corner(vf::Ctx& c, const char* tname) {
 }
 
 const GridCfg kGrids2[] = {{0.1, 21, false, 0, 0}, {0.25, 21, false, 0, 0}, {1, 21, false, 0, 0}, {0.01, 201, false, 0, 0}, {0.1, 201, false, 0, 0}, {1, 201, false, 0, 0},
-                           {0.1, 0, true, -3.37, 5.81}, {0.3, 0, true, -7.1, -0.45}, {0.01, 2001, false, 0, 0}, {0.25, 2001, false, 0, 0}, {1, 2001, false, 0, 0}};
-const GridCfg kGrids3[] = {{0.1, 21, false, 0, 0}, {1, 21, false, 0, 0}, {0.25, 101, false, 0, 0}, {0.1, 0, true, -3.37, 5.81}, {0.01, 201, false, 0, 0}, {1, 201, false, 0, 0}};
+                           {0.1, 0, true, -3.37, 5.81}, {0.25, 0, true, 2.0, 12.0, true}, {0.01, 2001, false, 0, 0}, {0.25, 2001, false, 0, 0}, {1, 2001, false, 0, 0}};
+const GridCfg kGrids3[] = {{0.1, 21, false, 0, 0}, {1, 21, false, 0, 0}, {0.25, 101, false, 0, 0}, {0.5, 0, true, 2.0, 12.0, true}, {0.01, 201, false, 0, 0}, {1, 201, false, 0, 0}};
 
 struct Case { int kind; int type; int grid; size_t block, nblocks; int depth; size_t firstOp; };
 std::vector<Case> g_cases[2];
